@@ -465,7 +465,7 @@ func classify(s *shape, tuple []int, mask uint, got, ref outcome) string {
 			}
 			switch k := s.consts[tuple[i]]; {
 			case k.Text == "0" && has("*", "/", "&"),
-				k.Text == "4294967295" && has("|"),
+				(k.Text == "4294967295" || k.Text == "(-1)") && has("|"),
 				k.Text == "false" && has("and"),
 				k.Text == "true" && has("or"):
 				return classAbsorb
@@ -474,12 +474,19 @@ func classify(s *shape, tuple []int, mask uint, got, ref outcome) string {
 	}
 	// … or a folded intermediate equal to the absorbing element decided the result
 	if ref.Kind == "exception" && got.Kind == "value" && got.val != nil {
-		if got.val.Equal(Zero) && has("*", "/", "&") || got.val.Equal(IntVal(4294967295)) && has("|") ||
+		if got.val.Equal(Zero) && has("*", "/", "&") || (got.val.Equal(IntVal(4294967295)) || got.val.Equal(IntVal(-1))) && has("|") ||
 			got.val == False && has("and") || got.val == True && has("or") {
 			return classAbsorb
 		}
 	}
 	bothValues := got.Kind == "value" && ref.Kind == "value"
+	if bothValues && has("/") && got.Type == "Number" && ref.Type == "Number" && got.val != nil && ref.val != nil {
+		// quotient differing in the last digits only: the reciprocal re-association, whatever else is in the expression
+		g, r := ToDnum(got.val), ToDnum(ref.val)
+		if !g.IsInf() && !r.IsInf() && !r.IsZero() && dnum.Compare(dnum.Div(dnum.Sub(g, r), r).Abs(), dnum.FromStr("1e-14")) < 0 {
+			return classReassoc
+		}
+	}
 	if has("&", "|") && big32 && (bothValues || got.Kind == "value" && ref.Text == "runtime error: negative shift amount") {
 		return classBit32
 	}
